@@ -683,6 +683,9 @@ def watcher_scenarios(seed, tier):
     add([{"op": "cancel"}])
     add([W(dirs[1] + "nested/a.toml"), W(dirs[1] + "b.toml")])
     T = lambda f: {"op": "trunc", "file": f}
+    # writes of one file with only event-less (nested) writes between them may be merged by the kernel
+    add([{"op": "pause"}, W(dirs[2] + "UPPER.TOML"), W(dirs[0] + "nested/c.toml"), W(dirs[3] + "nested/a.toml"), W(dirs[2] + "UPPER.TOML"),
+         {"op": "resume"}])
     add([T(dirs[3] + "a.toml")])                                       # a modification that leaves the file empty
     add([W(dirs[0] + "b.toml"), T(dirs[2] + "c.toml"), W(dirs[2] + "notes.txt"), T(dirs[0] + "notes.txt"), W(dirs[2] + "c.toml")])
     n = 25 if tier == "quick" else 400
